@@ -79,3 +79,61 @@ func TestC14V1StoredItemIsolatedFromCallerMemory(t *testing.T) {
 		t.Fatalf("stored item changed through a returned structure: %v", out2.Item)
 	}
 }
+
+// C14: table metadata handed to the v1 CreateTable / UpdateTable (billing mode, index projection) is not
+// shared with the caller: changing the caller's strings afterwards, or a DescribeTable result, changes nothing.
+func TestC14V1TableMetadataIsolated(t *testing.T) {
+	c := v1.NewClient()
+	billing := "PAY_PER_REQUEST"
+	ptype := "INCLUDE"
+	nonKey := "extra"
+	in := &dynamodb.CreateTableInput{
+		TableName:   aws.String("tbl"),
+		BillingMode: &billing,
+		AttributeDefinitions: []*dynamodb.AttributeDefinition{
+			{AttributeName: aws.String("h"), AttributeType: aws.String("S")},
+			{AttributeName: aws.String("g"), AttributeType: aws.String("S")},
+		},
+		KeySchema: []*dynamodb.KeySchemaElement{{AttributeName: aws.String("h"), KeyType: aws.String("HASH")}},
+		GlobalSecondaryIndexes: []*dynamodb.GlobalSecondaryIndex{{
+			IndexName:  aws.String("idx"),
+			KeySchema:  []*dynamodb.KeySchemaElement{{AttributeName: aws.String("g"), KeyType: aws.String("HASH")}},
+			Projection: &dynamodb.Projection{ProjectionType: &ptype, NonKeyAttributes: []*string{&nonKey}},
+		}},
+	}
+	if _, err := c.CreateTable(in); err != nil {
+		t.Fatal(err)
+	}
+	// the caller reuses its strings
+	billing = "PROVISIONED"
+	ptype = "ALL"
+	nonKey = "changed"
+	d, err := c.DescribeTable(&dynamodb.DescribeTableInput{TableName: aws.String("tbl")})
+	if err != nil {
+		t.Fatal(err)
+	}
+	p := d.Table.GlobalSecondaryIndexes[0].Projection
+	if *p.ProjectionType != "INCLUDE" || len(p.NonKeyAttributes) != 1 || *p.NonKeyAttributes[0] != "extra" {
+		t.Errorf("projection after the caller changed its own strings: %s %v", *p.ProjectionType, *p.NonKeyAttributes[0])
+	}
+	// a pay-per-request table accepts a new index without throughput
+	_, err = c.UpdateTable(&dynamodb.UpdateTableInput{TableName: aws.String("tbl"),
+		AttributeDefinitions: []*dynamodb.AttributeDefinition{{AttributeName: aws.String("k"), AttributeType: aws.String("S")}},
+		GlobalSecondaryIndexUpdates: []*dynamodb.GlobalSecondaryIndexUpdate{{Create: &dynamodb.CreateGlobalSecondaryIndexAction{
+			IndexName:  aws.String("idx2"),
+			KeySchema:  []*dynamodb.KeySchemaElement{{AttributeName: aws.String("k"), KeyType: aws.String("HASH")}},
+			Projection: &dynamodb.Projection{ProjectionType: aws.String("ALL")},
+		}}}})
+	if err != nil {
+		t.Errorf("billing mode changed behind the table's back: %v", err)
+	}
+	// writing into a DescribeTable result does not reach the table
+	*p.ProjectionType = "KEYS_ONLY"
+	*p.NonKeyAttributes[0] = "poked"
+	d2, _ := c.DescribeTable(&dynamodb.DescribeTableInput{TableName: aws.String("tbl")})
+	for _, g := range d2.Table.GlobalSecondaryIndexes {
+		if *g.IndexName == "idx" && (*g.Projection.ProjectionType != "INCLUDE" || *g.Projection.NonKeyAttributes[0] != "extra") {
+			t.Errorf("projection after a DescribeTable result was written to: %s %v", *g.Projection.ProjectionType, *g.Projection.NonKeyAttributes[0])
+		}
+	}
+}
